@@ -96,6 +96,23 @@ def run(F, R, tier):
         srt = B.calls_named("sort", "slice::sort", "sort_unstable")
         okret = []
         R.check(bool(srt), "C19.R1", "C19.R1:%s:sorted" % gl["id"], "-", "get_log_files sorts the listing (ascending: oldest timestamped name first)")
+        # the listing is a selection by name, never by position: the log folder is shared with other loggers and rule dumps, so "the
+        # entries up to the first foreign one" / "the first N" is an arbitrary subset and archives outside it are never deleted
+        from rules.c02 import descendants, iterator_calls
+        fam = [gl] + descendants(F, gl["id"])
+        n_it = 0
+        for f_, Bf, bi_, name, verdict, why in iterator_calls(F, fam):
+            if name in ("sort", "sorted"):
+                continue
+            n_it += 1
+            R.check(verdict, "C19.R1", R.key("C19.R1", gl["id"], "selection-by-name:%s" % name), q.where(Bf, bi_),
+                    "get_log_files: `%s` keeps every entry the name filter accepts (%s)" % (name, why),
+                    "get_log_files uses `%s`, which %s: log files that are not at that position of the directory listing are left out, so "
+                    "archive_file never deletes them and the folder grows past max_log_file_count" % (name, why))
+        for f_ in fam:
+            for bi_, w_, r_, t_ in mir.Body(f_, F).calls_named("Vec::truncate", "Vec::pop", "Vec::drain", "Vec::dedup", "Vec::split_off", "Vec::remove", "Vec::swap_remove"):
+                R.fail("C19.R1", R.key("C19.R1", gl["id"], "selection-by-name:%s" % q.base_name(w_).rsplit("::", 1)[-1]), q.where(mir.Body(f_, F), bi_),
+                       "get_log_files drops entries of the listing by position (%s)" % q.base_name(w_))
 
     # ------------------------------------------------------------------ R2
     es = F.body_of("proxy_agent_shared::telemetry::event_logger::start")
